@@ -163,7 +163,7 @@ Definition bstep (islayout : bool) (lex : ctxt -> option (tokres * ctxt)) (c : b
           let cx := b_cx c in
           let newp := position_after (sub inp (tk_val (b_tok c))) (cx_pos cx) in
           let sp := mkSpan (cx_pos cx) newp in
-          let cx1 := mkCtx newp sp (cx_layout cx) s' in
+          let cx1 := mkCtx newp sp None s' in   (* layout consumed by the shifted token *)
           let leaf := BLeaf (tk_kind (b_tok c)) (tk_span (b_tok c)) (cx_layout cx) (tk_val (b_tok c)) in
           match lex cx1 with
           | None => None
